@@ -103,6 +103,22 @@ MUTANTS = [
      '            self.contents += b"\\0" * (value - len(self.contents))',
      '            self.contents += b"\\0" * max(0, value - len(self.contents) - (1 if value > 6 else 0))',
      ["C19"]),
+    ("auxdata_reuses_raw_after_retype", "auxdata.py",
+     "        if self._lazy_container is not None and (\n            self.type_name == self._lazy_container.type_name\n        ):",
+     "        if self._lazy_container is not None:",
+     ["C14"]),
+    ("uuid_codec_never_resolves_offsets", "serialization.py",
+     "        element_uuid = UUIDCodec.decode(raw_bytes, get_by_uuid=get_by_uuid)",
+     "        element_uuid = UUIDCodec.decode(raw_bytes)",
+     ["C07", "C09"]),
+    ("bool_codec_nonzero_is_false", "serialization.py",
+     'return bool(raw_bytes.read(1) != b"\\x00")',
+     'return bool(raw_bytes.read(1) == b"\\x01")',
+     ["C08"]),
+    ("variant_index_4_bytes", "serialization.py",
+     "        out.write(variant.index.to_bytes(8, byteorder=\"little\"))",
+     "        out.write(variant.index.to_bytes(8, byteorder=\"little\") if variant.index < 2 else variant.index.to_bytes(8, byteorder=\"big\"))",
+     ["C08", "C07"]),
     ("loader_skips_entry_point_kind_check", "module.py",
      "            if not isinstance(entry_point, CodeBlock):",
      "            if entry_point is None:",
